@@ -357,14 +357,15 @@ example : expected [Lex.pct 53 [48], .dim 49 [] 112 [120], .hash 102 [48, 48]] =
 
 `Lex2` (Lemmas/TokLex2Sep.lean) adds to `Lex`: STRING (quote `"` or `'`, a body without backslash, line break or the
 delimiter — the other quote may occur —, the same quote; `strI`: ANY body made of string items, with escapes and line
-continuations, value = `stringValue`), IDENT with one or two leading hyphens, FUNCTION (plain identifier other than `and` in any letter
+continuations, value = `stringValue`), IDENT with one or two leading hyphens, URI in quoted form (`uriQ`: `url(` white
+space? string white space? `)`, value = `stringValue`), FUNCTION (plain identifier other than `and` in any letter
 case, `(`), URI (`url(` in any letter case, an unquoted body of printable ASCII other than quotes, `)`, backslash and
 white space, `)`), UNICODE-RANGE (`U+`/`u+`, one to six hex digits or `?`), COMMENT (`/*`, any body in which no `*/` ends,
 `*/`) and CDC. `render2` joins the lexemes with single spaces; `expectedAll` lists (type, value) with an S token between
 neighbours; a COMMENT token is not yielded when comments are off. S (any run of white space) and INVALID (which a
 space does not end) have class theorems of their own.
 Still on the classification oracle only: names with escapes or non-ASCII code points, signed / fractional numbers,
-identifiers that start with `-`, `u`, `U`, quoted URLs, UNICODE-RANGE intervals. -/
+identifiers that start with `u`, `U`, unquoted URLs with escapes, UNICODE-RANGE intervals. -/
 
 /-- **T5.6 for all token classes** (plain lexemes): a text produced from grammar tokens of the classes NUMBER,
 PERCENTAGE, DIMENSION, HASH, IDENT, ATKEYWORD incl. the reserved at-rules, the match operators, CDO, CDC, the
@@ -481,6 +482,15 @@ theorem uri_class_partial (doC : Bool) (u r l : Nat) (hu : IsU u) (hr : IsR r) (
     (hb : ∀ x ∈ body, inR uriPlain x = true) :
     scan false doC (u :: r :: l :: 40 :: (body ++ 41 :: rest)) productions = .hit "URI" (body.length + 5) :=
   scan_uri_plain doC u r l hu hr hl body rest hb
+
+/-- URI, quoted: `url(` in any letter case, optional white space, a string (any items, either quote), optional white
+space, `)`, whatever follows (value: `stringValue` of all of it, `string_values`) -/
+theorem uri_quoted_class (doC : Bool) (u r l : Nat) (hu : IsU u) (hr : IsR r) (hl : IsL l) (w1 w2 : Cps) (q : Nat)
+    (hq : q = 34 ∨ q = 39) (its : List SItem) (hw1 : ∀ x ∈ w1, isWsC x = true) (hw2 : ∀ x ∈ w2, isWsC x = true)
+    (h : ∀ i ∈ its, i.WF q) (rest : Cps) :
+    scan false doC (u :: r :: l :: 40 :: (w1 ++ (q :: (flat its ++ q :: (w2 ++ 41 :: rest))))) productions =
+      .hit "URI" (4 + (w1.length + (((flat its).length + 2) + (w2.length + 1)))) :=
+  scan_uri_quoted doC u r l hu hr hl w1 w2 q hq its hw1 hw2 h rest
 
 /-- UNICODE-RANGE (single range) followed by the end of the text or a space; URI does not match there -/
 theorem unicode_range_class_partial (doC : Bool) (u h : Nat) (hs stop : Cps) (hu : IsU u)
